@@ -332,6 +332,13 @@ def preflight():
                 if f["name"] == fname:
                     f.update(kw)
         return mut
+
+    def selective(allow):
+        def mut(sp):
+            sp["service_yaml"]["publishing"]["library_settings"] = [
+                {"version": specs.PKG, "python_settings": {"common": {"selective_gapic_generation": {"methods": allow}}}}]
+        return mut
+
     def poke_with_unannotated_request_id(sp):
         # PokeWidget gets its own request type with a `request_id` that is NOT annotated UUID4
         f0 = sp["files"][0]
@@ -366,6 +373,14 @@ def preflight():
         ("same_field_name_bad_in_second_selector", spec_with([A, PK], poke_with_unannotated_request_id), True),
         ("same_field_name_bad_in_first_selector", spec_with([PK, A], poke_with_unannotated_request_id), True),
         ("same_field_name_bad_selector_alone", spec_with([PK], poke_with_unannotated_request_id), True),
+        ("lro_entry_with_long_running_and_good_field", spec_with([dict(A, long_running={"initial_poll_delay": "1s", "max_poll_delay": "20s", "total_poll_timeout": "600s", "poll_delay_multiplier": 1.5})]), False),
+        ("lro_entry_with_long_running_and_bad_field", spec_with([{"selector": SVC + ".CreateWidget", "auto_populated_fields": ["parent"],
+                                                                  "long_running": {"initial_poll_delay": "1s", "max_poll_delay": "20s", "total_poll_timeout": "600s", "poll_delay_multiplier": 1.5}}]), True),
+        ("selective_generation_valid", spec_with([A], selective([SVC + ".CreateWidget", SVC + ".GetWidget"])), False),
+        ("selective_generation_unknown_method", spec_with([{"selector": SVC + ".NoSuchMethod", "auto_populated_fields": ["request_id"]}],
+                                                          selective([SVC + ".CreateWidget", SVC + ".GetWidget"])), True),
+        ("selective_generation_bad_field", spec_with([{"selector": SVC + ".CreateWidget", "auto_populated_fields": ["parent"]}],
+                                                     selective([SVC + ".CreateWidget", SVC + ".GetWidget"])), True),
         ("duplicate_adjacent", spec_with([A, dict(A)]), True),
         ("duplicate_separated", spec_with([A, B, dict(A)]), True),
         ("duplicate_separated_empty_last", spec_with([A, B, {"selector": SVC + ".CreateWidget"}]), True),
